@@ -10,17 +10,19 @@ for mp in sorted(glob.glob('/verif/seeded/C*-*/meta.json'), key=lambda p: (p.spl
     rr = m.get('run_against_repo', {})
     notes = m.get('what_it_needs_to_manifest_and_why (author notes)', '').strip().splitlines()
     first = re.sub(r'^#+\s*', '', notes[0]) if notes else ''
-    rows.append((name, pid, caught, rr.get('exit_code'), rr.get('violation_line', ''), first))
+    bl = next((v for k, v in m.items() if k.startswith('baseline')), None)
+    base = '' if bl is None else (('target ' if bl['caught_by_target_property_check'] else 'target missed; ') + ('' if bl['caught_by_target_property_check'] else ('others: ' + ' '.join(bl['caught_by_quick_checks']) if bl['caught_by_quick_checks'] else 'no check')))
+    rows.append((name, pid, caught, rr.get('exit_code'), base, first))
 with open('/verif/seeded/MATRIX.md', 'w') as f:
     f.write('# Seeded changes and which checks catch them\n\n')
     f.write('Each change compiles, passes the 211 existing tests and fails its own demonstration (confirmed in a scratch worktree; details in each `meta.json`).\n\n')
     f.write('* `scratch matrix`: every property whose quick check printed a VIOLATION when all 19 quick checks were run against the changed tree in a scratch copy (harness as of that moment; some checks were strengthened afterwards, see DESIGN.md §8.4).\n')
     f.write('* `target on /repo`: exit code of `./check <target> quick` with the change applied to /repo itself and undone straight afterwards, with the checks as committed (1 = VIOLATION reported).\n\n')
-    f.write('| change | target | target on /repo | scratch matrix (quick tier) | summary |\n|---|---|---|---|---|\n')
+    f.write('| change | target | target on /repo | scratch matrix (quick tier) | before strengthening (rounds 4, 5) | summary |\n|---|---|---|---|---|---|\n')
     n1 = 0
     for name, pid, caught, rc, line, first in rows:
         n1 += (rc == 1)
-        f.write(f'| {name} | {pid} | {rc} | {" ".join(caught)} | {first[:150]} |\n')
+        f.write(f'| {name} | {pid} | {rc} | {" ".join(caught)} | {line} | {first[:150]} |\n')
     f.write(f'\n{len(rows)} changes; the target property\'s check reports a violation for {n1}; the other {len(rows) - n1} are reported by the check of the '
             f'property whose statement covers them (see the scratch-matrix column and DESIGN.md §8.4).\n')
 print(len(rows), n1)
